@@ -1,9 +1,9 @@
 SPECIFICATION Spec
 CONSTANTS
-  OptSet <- OptsPlain
-  CallSet <- SingleCalls
-  ChangeSet <- MoveChanges
-  MaxCalls = 1
+  OptSet <- OptsFail
+  CallSet <- FailCalls2
+  ChangeSet <- FailChanges
+  MaxCalls = 2
   MaxChanges = 1
   MaxGen = 3
   MaxAtt = 3
@@ -14,15 +14,16 @@ CONSTANTS
   BugTxNoMulti = FALSE
   BugPredIgnored = FALSE
   BugNodeOrder = FALSE
-  BugMovedIgnored = TRUE
+  BugMovedIgnored = FALSE
   BugMaxOffByOne = FALSE
   BugSelClamp = FALSE
   BugRefreshDropsInit = FALSE
   BugAskRunNoInit = FALSE
   BugPoolStale = FALSE
   BugStreamKeyless = FALSE
-  BugPromoteReplica = FALSE
-INVARIANTS TypeOK RedirectFollowed
+  BugPromoteReplica = TRUE
+INVARIANTS TypeOK ReplicaOnlyWhenOptedIn
 CONSTRAINT GenBound
+CONSTRAINT FailFirst
 VIEW MCView
 CHECK_DEADLOCK FALSE
